@@ -304,7 +304,7 @@ def gen_fault(rng, n, kinds=('g', 't')):
                 bad = f'{rcase(rng, k)}={rng.choice(["2", "1", "%31"])}'
             else:
                 bad = 'checksum=' + rng.choice(['sha1', 'sha1:0', 'sha1:0g', 'sha1:00,md5', 'sha1:00,SHA1:11', 'sha1:00,sha1:00', ':0',
-                                                'sha1:000', 'a:00,', ',a:00', 'a:0%2C', 'sha1:zz', 'Sha1:00,sHA1:00', 'ǅ:00,ǆ:11', 'md5:aa,md5:aa', 'md5:00,sha1:11,sha1:22,sha256:33', 'sha1:,sha1:', 'Æ:00,æ:11'])
+                                                'sha1:000', 'a:00,', ',a:00', 'a:0%2C', 'sha1:zz', 'Sha1:00,sHA1:00', 'ǅ:00,ǆ:11', 'a:00,sha1:zz', 'md5:00,sha1:0', 'md5:aa,md5:aa', 'md5:00,sha1:11,sha1:22,sha256:33', 'sha1:,sha1:', 'Æ:00,æ:11'])
                 if rng.random() < 0.35:
                     c = rng.choice([x for x in "+-_.~!*'();@$=ghzGHZ xX/\\|^[]{}`\"<>" if x not in ',&#:'])   # not ':' - it would move the algorithm/digest boundary
                     d = list(rng.choice(['00', 'a0b1', '0f', 'DEADBEEF']))
@@ -486,7 +486,7 @@ def gen_types(kinds=('g', 's', 'b', 'o')):
 # ------------------------------------------------------------------ G-build
 VALS = ['', 'x', '%40a', '@a', 'my%20org', 'my org', 'a%252Fb', 'A/b', '/', 'a//b/', 'docs/%2541', 'a%252Fb', 'docs../img/x.', 'lib./i', 'a/.../b', '...', '..../x', 'a///b', 'a/////b//c', '1.0/', 'x ', '\u3000x\u3000', 'vv1', 'Vv1', '%41', '..', 'a/../b', 'é', 'a@b?c#d', ' ', 'a&b=c+d', '"<>`{}', 'a:b']
 QKEYS = ['chec\u212asum', 'vc\u017f_url', 'cla\u00dfifier', '3rd', '0', 'a/b', 'a[0]', 'k^', 'a', 'A', 'b', 'a.b', 'a_b', 'ab', '!', '', 'checksum', 'Checksum', 'repository_url', 'é', 'type', 'Z', 'File_Name', 'filename']
-QVALS = ['sha1:00,sha1:11', 'md5:aa,md5:aa', 'md5:00,sha1:11,sha1:22', '\u0130d:00ff', 'sha1:00,x\u0130:AB', 'shake256:' + 'ab' * 65, 'sha1:00,k12:' + 'CD' * 128, '', 'x', 'a&b=c', 'sha1:00', 'SHA1:ZZ', 'B:00,a:FF', 'sha1:0', 'a:,b:', 'v w', 'sha1:00,', ',sha1:00', 'sha1:', 'jar', 'sha3-256:aa,sha3:bb']
+QVALS = ['a:00,sha1:zz', 'md5:00,sha1:0', 'a:ff', 'sha1:00,sha1:11', 'md5:aa,md5:aa', 'md5:00,sha1:11,sha1:22', '\u0130d:00ff', 'sha1:00,x\u0130:AB', 'shake256:' + 'ab' * 65, 'sha1:00,k12:' + 'CD' * 128, '', 'x', 'a&b=c', 'sha1:00', 'SHA1:ZZ', 'B:00,a:FF', 'sha1:0', 'a:,b:', 'v w', 'sha1:00,', ',sha1:00', 'sha1:', 'jar', 'sha3-256:aa,sha3:bb']
 CSOPS = [f'i.{hx("shake256")}.' + 'ab' * 65, f'w.{hx("k12")}.' + hx('AB' * 100), f'w.{hx("x")}.' + hx('zz' * 70), '-', f'i.{hx("sha1")}.00ff', f'i.{hx("SHA1")}.-', f'i.{hx("md5")}.0a+i.{hx("MD5")}.0b', f'w.{hx("sha1")}.{hx("zz")}',
          f'w.{hx("sha1")}.{hx("ABC")}', f'i.{hx("ǅ")}.01+i.{hx("ǆ")}.02', f'i.{hx("b")}.00+i.{hx("a")}.ff', f'i.{hx("a")}.00+r.{hx("a")}',
          f'w.{hx("a")}.{hx("AB")}+i.{hx("A")}.cd', f'i.{hx("a,b")}.00']
